@@ -125,3 +125,66 @@ Example c06_example_nonneg_premises :
 Proof.
   cbv zeta. cbn [r0 radd rmul ZR car]. repeat split; intros; try nia. unfold z_ltz. apply Z.ltb_ge. assumption.
 Qed.
+
+
+(* ---- Foerster: roles of the indices (K[a,b] is the transfer b -> a: b is the donor) and the two directions of a pair ---- *)
+Theorem c06_foerster_transfer_uses_donor_column : forall (R : StarRing) (G : Type) Na (fint : G -> G -> R -> R -> R -> R) (gt : nat -> G)
+  (HH : @mat R) (ll : nat -> R) a b, a <> b ->
+  foerster_rates Na HH (foerster_F fint gt HH ll) a b = rmul R (rmul R (HH a b) (HH a b)) (fint (gt a) (gt b) (HH b b) (HH a a) (ll b)).
+Proof. intros R G. exact (@foerster_transfer_uses_donor_column R G). Qed.
+Print Assumptions c06_foerster_transfer_uses_donor_column.
+
+Theorem c06_foerster_phase_relaxed_gap : forall (R : StarRing) (two ed ea ld la : R), two = radd R (r1 R) (r1 R) ->
+  foerster_phase two ed ea ld = rsub R (rsub R (rsub R ed ld) (rsub R ea la)) (radd R ld la) /\
+  foerster_phase two ea ed la = rsub R (rsub R (r0 R) (rsub R (rsub R ed ld) (rsub R ea la))) (radd R ld la).
+Proof. intros R. exact (@foerster_phase_relaxed_gap R). Qed.
+Print Assumptions c06_foerster_phase_relaxed_gap.
+
+(* ---- get_FTCorrelationFunction: which temperature is used ---- *)
+Theorem c06_ft_temperature_argument_wins : forall t p ps, ft_temperature (Some t) (p :: ps) = FtOk t.
+Proof. exact ft_temperature_argument_wins. Qed.
+Print Assumptions c06_ft_temperature_argument_wins.
+
+Theorem c06_ft_temperature_stored : forall ps t, ft_temperature None ps = FtOk t ->
+  forall p, In p ps -> exists t', p = Some t' /\ t' == t.
+Proof. exact ft_temperature_stored. Qed.
+Print Assumptions c06_ft_temperature_stored.
+
+(* ---- get_FTCorrelationFunction: the values ---- *)
+Theorem c06_ftcf_argument_is_half : forall kB T w, ~ kB * T == 0 -> 2 * (w / ftcf_twokbt kB T) == w / (kB * T).
+Proof. exact ftcf_argument_is_half. Qed.
+Print Assumptions c06_ftcf_argument_is_half.
+
+Theorem c06_ftcf_grid_detailed_balance : forall (th : Q -> Q) twokbt step i0 direct omega data i i' e, ~ e == 1 -> ~ e == - (1) ->
+  i <> i0 -> i' <> i0 -> omega i' = - omega i -> data i' == - data i ->
+  th (omega i / twokbt) == (1 - e) / (1 + e) -> th (- omega i / twokbt) == - th (omega i / twokbt) ->
+  ftcf_grid th twokbt step i0 direct omega data i' == e * ftcf_grid th twokbt step i0 direct omega data i.
+Proof. exact ftcf_grid_detailed_balance. Qed.
+Print Assumptions c06_ftcf_grid_detailed_balance.
+
+Theorem c06_ftcf_grid_zero_point : forall (th : Q -> Q) twokbt step i0 omega data, ~ step == 0 -> data (pred i0) == - data (S i0) ->
+  ftcf_grid th twokbt step i0 false omega data i0 == twokbt * data (S i0) / step.
+Proof. exact ftcf_grid_zero_point. Qed.
+Print Assumptions c06_ftcf_grid_zero_point.
+
+(* ---- non-vacuity of the added hypotheses ---- *)
+(* a three-point grid -1, 0, 1 with an odd J and a "tanh" that takes the values -1/3, 1/3 (e = 1/2) *)
+Example c06_example_grid_premises :
+  let th := fun x : Q => if Qle_bool 0 x then 1 # 3 else - (1 # 3) in
+  let omega := fun i : nat => inject_Z (Z.of_nat i) - 1 in
+  let data := fun i : nat => (inject_Z (Z.of_nat i) - 1) * (5 # 1) in
+  let e := 1 # 2 in
+  ~ e == 1 /\ ~ e == - (1) /\ 2%nat <> 1%nat /\ 0%nat <> 1%nat /\ omega 0%nat = - omega 2%nat /\ data 0%nat == - data 2%nat /\
+  th (omega 2%nat / 1) == (1 - e) / (1 + e) /\ th (- omega 2%nat / 1) == - th (omega 2%nat / 1) /\
+  ftcf_grid th 1 1 1 false omega data 0%nat == e * ftcf_grid th 1 1 1 false omega data 2%nat /\
+  ftcf_grid th 1 1 1 false omega data 1%nat == 1 * data 2%nat / 1.
+Proof. cbv zeta. repeat split; try (intro H; discriminate H); try reflexivity. Qed.
+
+Example c06_example_temperature :
+  ft_temperature (Some (77 # 1)) [Some (300 # 1); None] = FtOk (77 # 1) /\
+  ft_temperature None [Some (300 # 1); Some (300 # 1)] = FtOk (300 # 1) /\
+  ft_temperature None [Some (300 # 1); Some (200 # 1)] = FtErr /\ ft_temperature None [None] = FtErr.
+Proof. repeat split. Qed.
+
+Example c06_example_phase : foerster_phase (R:=ZR) 2%Z 10%Z 7%Z 1%Z = 1%Z /\ foerster_phase (R:=ZR) 2%Z 7%Z 10%Z 2%Z = (-7)%Z.
+Proof. split; reflexivity. Qed.
